@@ -89,27 +89,38 @@ Proof. induction n; simpl; auto. Qed.
 Lemma hash_initial_size_pos : 0 < hash_initial_size.
 Proof. reflexivity. Qed.
 
-Lemma u64_4n_minus1_pos n : 0 < u64 (u64 (4 * n) - 1).
+(* x - 1 computed in size_t is positive whenever x is an even multiple (4 * slots in the pinned source) *)
+Lemma u64_kn_minus1_pos k n : Z.even k = true -> 0 < u64 (u64 (k * n) - 1).
 Proof.
+  intros Hk. apply Z.even_spec in Hk. destruct Hk as [k2 ->].
   unfold u64, wrapu.
-  replace M64 with (4 * 4611686018427387904) by reflexivity.
-  rewrite Z.mul_mod_distr_l by lia.
-  pose proof (Z.mod_pos_bound n 4611686018427387904 ltac:(lia)) as Hb.
-  set (t := n mod 4611686018427387904) in *.
+  replace M64 with (2 * 9223372036854775808) by reflexivity.
+  rewrite <- Z.mul_assoc. rewrite Z.mul_mod_distr_l by lia.
+  pose proof (Z.mod_pos_bound (k2 * n) 9223372036854775808 ltac:(lia)) as Hb.
+  set (t := (k2 * n) mod 9223372036854775808) in *.
   destruct (Z.eq_dec t 0) as [->|Ht].
   + reflexivity.
   + rewrite Z.mod_small; lia.
 Qed.
 
+Lemma hash_minimal_size_pos : 0 < sc_hash_minimal_size.
+Proof. reflexivity. Qed.
+
+(* written to survive edits of the thresholds that keep the property: every branch of the generated decision
+   either returns None, or an even multiple of the slot count minus one, or a size that passed the
+   comparison with sc_hash_minimal_size *)
 Lemma hash_new_size_pos c n ns : 0 < n -> hash_new_size c n = Some ns -> 0 < ns.
 Proof.
-  intros Hn. unfold hash_new_size.
-  destruct (u64 (4 * n) <=? c).
-  - intros E. assert (ns = u64 (u64 (4 * n) - 1)) by congruence. subst ns. apply u64_4n_minus1_pos.
-  - destruct (c <=? n / 4); [|discriminate].
-    destruct (u64 (n / 4 + 1) <? sc_hash_minimal_size) eqn:E; [discriminate|].
-    intros E2. assert (ns = u64 (n / 4 + 1)) by congruence. subst ns.
-    apply Z.ltb_ge in E. assert (0 < sc_hash_minimal_size) by reflexivity. lia.
+  intros Hn. unfold hash_new_size. cbv zeta.
+  repeat match goal with
+         | |- context [if ?b then _ else _] => destruct b eqn:?
+         end; intros E; try discriminate E;
+  (assert (Hns : Some ns = Some ns) by reflexivity; rewrite <- E in Hns at 1; clear E;
+   match type of Hns with Some ?e = _ => assert (Hp : 0 < e); [|congruence] end;
+   first [ apply u64_kn_minus1_pos; reflexivity
+         | match goal with H : (_ <? sc_hash_minimal_size) = false |- _ =>
+             apply Z.ltb_ge in H; pose proof hash_minimal_size_pos; lia end
+         | unfold u64, wrapu, M64; lia ]).
 Qed.
 
 Section Rehash.
